@@ -872,5 +872,16 @@ func main() {
 	}
 	sb.WriteString("\nend Jl.Gen\n")
 	writeIfChanged(filepath.Join(*out, "Sites.lean"), sb.String())
+
+	if mp, err := loadPkg(filepath.Join(*repo, "cmd/jl"), "github.com/cgi-fr/jsonline/cmd/jl"); err == nil {
+		fr, tr := registries(mp)
+		var rb strings.Builder
+		rb.WriteString("-- GENERATED by extract/ from /repo/cmd/jl on every run. Do not edit.\nimport Model.Basic\n\nnamespace Jl.Gen\nopen Jl\n\n")
+		rb.WriteString("/-- cmd/jl formatRegistry -/\ndef formatRegistry : List (Bytes × Format) := [\n" + strings.Join(fr, ",\n") + "\n]\n\n")
+		rb.WriteString("/-- cmd/jl typeRegistry: name → dynamic type of the sample -/\ndef typeRegistry : List (Bytes × Ty) := [\n" + strings.Join(tr, ",\n") + "\n]\n\n")
+		rb.WriteString("end Jl.Gen\n")
+		writeIfChanged(filepath.Join(*out, "Registry.lean"), rb.String())
+		fmt.Printf("Gen/Registry.lean: %d formats, %d types\n", len(fr), len(tr))
+	}
 	fmt.Printf("Gen/Sites.lean: %d jsonline sites, %d writes\n", len(panicSites(jp)), len(jw))
 }
